@@ -351,6 +351,11 @@ def run_history(comps, rng, rec, mon, n_utts):
                             rec.count("integer_chunks_refused")
                     comp.compute_chunk(x[pos:pos + n])
                     pos += n
+                    if u % 3 == 1 and j % 2 == 0:
+                        from ..common import poke
+
+                        poke(comp)  # (attributes read, repr(), ==, hash() between two chunks: not a use of the computer)
+                        rec.count("computers_inspected_between_chunks")
                     if rng.random() < 0.12:
                         # an attempt to start something else mid-utterance must be refused
                         y = gen.signal(rng, int(rng.integers(0, 3 * comp.frame_length + 2)), None)
